@@ -140,6 +140,18 @@ func init() {
 		Outside:     []string{"4-5 classes, 3-4 interfaces, multiple interface extends", "like with more than 3 probe interfaces"},
 	})
 
+	reg(Check{
+		ID:  "C19",
+		Pkg: "verif/harness/c19",
+		Runs: []RunDef{
+			{Fn: "H_history", Params: k(2), Fuel: 20_000_000, Tier: "quick", Reach: []string{"end"}},
+			{Fn: "H_history", Params: k(3), Fuel: 20_000_000, Tier: "quick", Reach: []string{"end"}},
+			{Fn: "H_history", Params: k(4), Fuel: 30_000_000, Tier: "thorough", Reach: []string{"end"}},
+		},
+		Rule:        rule + "; every history of k steps over {instantiate Box<int|string|array|U> into one of 2 slots, write a value of kind int|string|array|U into a slot's T-typed property, pass it to a T-typed method parameter}; the script is assembled per path and parsed by the real generic-class parser; expected acceptance is computed per instance from its own type argument. Structural enumeration through the engine; the int payload is symbolic",
+		Outside:     []string{"two-parameter generic classes", "concurrent instantiation (only sequential orders)", "histories longer than 4"},
+	})
+
 	c17 := func(fn string, p map[string]int) RunDef {
 		return RunDef{Fn: fn, Params: p, Tier: "quick", Reach: []string{"end"}}
 	}
